@@ -40,8 +40,9 @@ def build(repo, subs):
                    "crate::env::fmt_pad20_ext(inverted_version, MANIFEST_EXTENSION)", why="model of format! ({:020}.{})")
     impl = subs.rx(impl, r"filename\s*\.split_once\('\.'\)", "crate::env::split_once_char(filename, '.')", why="model of str::split_once on ASCII (core's string searchers blow CBMC up: 2.2M steps, 106M clauses measured)")
     impl = subs.lit(impl, "version_str.parse::<u64>().ok()", "crate::env::parse_u64(version_str)", why="model of <u64 as FromStr>::from_str: optional '+', >=1 ASCII digits, no overflow")
-    impl = subs.lit(impl, "filename.starts_with(DETACHED_VERSION_PREFIX)", "crate::env::starts_with(filename, DETACHED_VERSION_PREFIX)", why="model of str::starts_with (byte prefix)")
-    impl = subs.lit(impl, "filename.ends_with(MANIFEST_EXTENSION)", "crate::env::ends_with(filename, MANIFEST_EXTENSION)", why="model of str::ends_with (byte suffix)")
+    # every prefix/suffix/substring test on the file name goes to the byte-loop models (whatever the code asks for)
+    impl = subs.rx(impl, r"\bfilename\.(starts_with|ends_with|contains)\(", r"crate::env::\1(filename, ", count=None,
+                   why="models of str::starts_with / ends_with / contains with a &str pattern (byte comparison)")
     impl = subs.lit(impl, "filename.chars().nth(20) == Some('.')", "crate::env::nth_char(filename, 20) == Some('.')", why="model of chars().nth on ASCII (byte index)")
     if "format!" in impl:
         raise X.Inconclusive("ManifestNamingScheme uses a format string the model does not know")
